@@ -105,7 +105,7 @@ type stageSpec struct {
 }
 
 // runPipeline executes stages on the real scheduler and runner.
-func runPipeline(o *obsRun, stages []stageSpec) (error, bool) {
+func runPipeline(o *obsRun, stages []stageSpec, format ...string) (error, bool) {
 	var list []*scheduler.Stage
 	for _, s := range stages {
 		if s.t.Env == nil {
@@ -120,6 +120,9 @@ func runPipeline(o *obsRun, stages []stageSpec) (error, bool) {
 	}
 	tr, _ := runner.NewTaskRunner()
 	tr.Stdout, tr.Stderr = ioutil.Discard, ioutil.Discard
+	if len(format) > 0 {
+		tr.OutputFormat = format[0]
+	}
 	sd := scheduler.NewScheduler(tr)
 	sd.VerifSetPause(500 * time.Microsecond)
 	done := make(chan error, 1)
@@ -324,13 +327,26 @@ func Check(env *core.Env, rep *core.Report) *core.Result {
 		"utf8": []byte("héllo wörld ✓ 日本語\n"), "big": bytes.Repeat([]byte("0123456789abcdef"), 4096),
 		"crlf": []byte("a\r\nb\r\n"), "spaces": []byte("  lead and trail  \n\n"),
 	}
+	// "esc": complete escape sequences; "esccut": an external producer writes its output in two
+	// pieces, the first ending inside an escape sequence (the prefixed format strips escape
+	// sequences from what it displays - the captured bytes must not be affected)
+	payloads["esc"] = []byte("\x1b[1mbold\x1b[0m and \x1b[31mred\x1b[0m\n")
+	payloads["esccut"] = []byte("ab\x1b[1mcdefghijklmnopqrstuvwxyz0123456789\x1b[0m\n")
 	var pnames []string
 	for k, v := range payloads {
 		pnames = append(pnames, k)
 		_ = ioutil.WriteFile(filepath.Join(dir, "p_"+k), v, 0o644)
 	}
+	_ = ioutil.WriteFile(filepath.Join(dir, "p_esccut.sh"), []byte("printf 'ab\\033['\nsleep 0.15\nprintf '1mcdefghijklmnopqrstuvwxyz0123456789\\033[0m\\n'\n"), 0o644)
+	produce := func(name string) string {
+		if name == "esccut" {
+			return "/bin/sh " + filepath.Join(dir, "p_esccut.sh")
+		}
+		return "cat " + filepath.Join(dir, "p_"+name)
+	}
 	type pcase struct {
 		nc, nv int
+		format string
 		pay    []string // per command
 		to     []string // out | err | both
 	}
@@ -340,12 +356,12 @@ func Check(env *core.Env, rep *core.Report) *core.Result {
 	for nc := 1; nc <= 2; nc++ {
 		for nv := 1; nv <= 2; nv++ {
 			for _, p1 := range pnames {
-				reps := 2
+				reps := 4
 				if thorough {
-					reps = 6
+					reps = 8
 				}
 				for k := 0; k < reps; k++ {
-					c := pcase{nc: nc, nv: nv}
+					c := pcase{nc: nc, nv: nv, format: []string{"raw", "prefixed"}[k%2]}
 					for j := 0; j < nc; j++ {
 						if j == 0 {
 							c.pay = append(c.pay, p1)
@@ -353,6 +369,9 @@ func Check(env *core.Env, rep *core.Report) *core.Result {
 							c.pay = append(c.pay, pnames[rng.Intn(len(pnames))])
 						}
 						c.to = append(c.to, []string{"out", "err", "both", "out"}[rng.Intn(4)])
+						if j == 0 && k < 2 {
+							c.to[0] = "out" // every payload at least once on stdout under each format
+						}
 					}
 					pcases = append(pcases, c)
 				}
@@ -366,17 +385,17 @@ func Check(env *core.Env, rep *core.Report) *core.Result {
 		var cmds []string
 		var perCmdOut, perCmdAll [][]byte
 		for j := 0; j < c.nc; j++ {
-			f := filepath.Join(dir, "p_"+c.pay[j])
+			f := produce(c.pay[j])
 			b := payloads[c.pay[j]]
 			switch c.to[j] {
 			case "out":
-				cmds = append(cmds, "cat "+f)
+				cmds = append(cmds, f)
 				perCmdOut, perCmdAll = append(perCmdOut, b), append(perCmdAll, b)
 			case "err":
-				cmds = append(cmds, "cat "+f+" >&2")
+				cmds = append(cmds, f+" >&2")
 				perCmdOut, perCmdAll = append(perCmdOut, nil), append(perCmdAll, b)
 			default:
-				cmds = append(cmds, "cat "+f+"; cat "+f+" >&2")
+				cmds = append(cmds, f+"; "+f+" >&2")
 				perCmdOut, perCmdAll = append(perCmdOut, b), append(perCmdAll, append(append([]byte{}, b...), b...))
 			}
 		}
@@ -388,7 +407,7 @@ func Check(env *core.Env, rep *core.Report) *core.Result {
 		outf := filepath.Join(env.Sub("c11o"), "seen")
 		cons := task.FromCommands(fmt.Sprintf(`printf %%s "$PROD_OUTPUT" > %s`, outf))
 		cons.Name = "cons"
-		_, ok := runPipeline(o, []stageSpec{{p, nil}, {cons, []string{"prod"}}})
+		_, ok := runPipeline(o, []stageSpec{{p, nil}, {cons, []string{"prod"}}}, c.format)
 		atomic.AddInt64(&evals, 1)
 		if !ok {
 			add("capture:pipeline-does-not-return", "producer -> consumer did not return", c)
@@ -404,7 +423,7 @@ func Check(env *core.Env, rep *core.Report) *core.Result {
 				prev = string(perCmdAll[j])
 			}
 		}
-		desc := fmt.Sprintf("[commands %v to %v, %d variation(s)]", c.pay, c.to, c.nv)
+		desc := fmt.Sprintf("[commands %v to %v, %d variation(s), output format %s]", c.pay, c.to, c.nv, c.format)
 		if p.Output() != string(want) {
 			add("capture:task-output-differs", fmt.Sprintf("Task.Output() has %d bytes, the commands wrote %d bytes to stdout %s", len(p.Output()), len(want), desc), map[string]interface{}{"case": c, "got_prefix": clip(p.Output()), "want_prefix": clip(string(want))})
 		}
@@ -422,7 +441,7 @@ func Check(env *core.Env, rep *core.Report) *core.Result {
 			add("chain:dot-output-is-not-previous-command", fmt.Sprintf(".Output seen by the commands %q, expected %q %s", clipAll(outs), clipAll(chain), desc), c)
 		}
 		if i%41 == 0 {
-			samples.Add(map[string]interface{}{"kind": "payload", "commands": c.pay, "streams": c.to, "variations": c.nv, "expected_bytes": len(want)})
+			samples.Add(map[string]interface{}{"kind": "payload", "format": c.format, "commands": c.pay, "streams": c.to, "variations": c.nv, "expected_bytes": len(want)})
 		}
 	})
 
@@ -494,7 +513,7 @@ func Check(env *core.Env, rep *core.Report) *core.Result {
 		"traces_validated_against_impl": int(evals), "evaluations": int(evals),
 		"distinct_nontrivial": len(ncases) + len(pcases) + len(dags) + 1,
 		"name_cases":          len(ncases), "payload_cases": len(pcases), "dag_runs": len(dcases),
-		"rule":       "names: every shape of length <=3 over {lower, upper, digit, _, other} from OutputGen.tla with the expected export name, plus every printable ASCII character at each of 3 positions, with and without exportAs; payloads: producers with 1..2 commands x 1..2 variations writing payload classes (empty, line, multi-line, no trailing newline, CRLF, UTF-8, 64 KiB) to stdout/stderr/both; graphs: every dependency arrangement of 3 stages (all stages export and check their ancestors) and a 6-producer fan-in, repeated with producers released together",
+		"rule":       "names: every shape of length <=3 over {lower, upper, digit, _, other} from OutputGen.tla with the expected export name, plus every printable ASCII character at each of 3 positions, with and without exportAs; payloads: producers with 1..2 commands x 1..2 variations writing payload classes (empty, line, multi-line, no trailing newline, CRLF, UTF-8, 64 KiB, escape sequences, an external producer whose first chunk ends inside an escape sequence) to stdout/stderr/both, under the raw and the prefixed output format; graphs: every dependency arrangement of 3 stages (all stages export and check their ancestors) and a 6-producer fan-in, repeated with producers released together",
 		"model_runs": modelRuns, "samples": samples.List(), "checker_cmds": cmds,
 	}
 	return &core.Result{Level: "model_checking", Coverage: cov, Assumptions: []string{
